@@ -161,6 +161,37 @@ fn c17_truncate_every_byte() -> i32 {
     if bad == 0 { println!("conforms: {tried} truncation points of a {}-byte log", full.len()); 0 } else { 1 }
 }
 
+/// C18.client.frame.write_i2e_record: a blob stored right after the node table's first page must keep
+/// its content when the node table grows past one page (node id 512 is addressed at start + 1).
+fn c18_node_table_spill() -> i32 {
+    use nervusdb_storage::blob_store::BlobStore;
+    use nervusdb_storage::idmap::IdMap;
+    use nervusdb_storage::pager::Pager;
+    let d = tmpdir("c18-spill");
+    let ndb = d.join("t.ndb");
+    let r = std::panic::catch_unwind(|| -> Result<(Vec<u8>, u64, Option<u64>), String> {
+        let mut pager = Pager::open(&ndb).map_err(|e| e.to_string())?;
+        let mut idmap = IdMap::load(&mut pager).map_err(|e| e.to_string())?;
+        idmap.apply_create_node(&mut pager, 1000, 0, 0).map_err(|e| e.to_string())?;
+        let start = pager.i2e_start_page().map(|p| p.as_u64());
+        let payload: Vec<u8> = (0..64u8).collect();
+        let blob = BlobStore::write(&mut pager, &payload).map_err(|e| e.to_string())?;
+        for i in 1..=512u32 {
+            idmap.apply_create_node(&mut pager, 1000 + i as u64, 0, i).map_err(|e| e.to_string())?;
+        }
+        let back = BlobStore::read(&pager, blob).map_err(|e| format!("blob unreadable after node growth: {e}"))?;
+        Ok((back, blob, start))
+    });
+    let _ = std::fs::remove_dir_all(&d);
+    let want: Vec<u8> = (0..64u8).collect();
+    match r {
+        Ok(Ok((back, _, _))) if back == want => { println!("conforms: blob page kept its content while the node table grew to 513 records"); 0 }
+        Ok(Ok((back, blob, start))) => { println!("VIOLATION reproduced: node table starts at page {:?}; a 64-byte blob was stored at page {blob}; after creating node 512 the blob reads back as {} bytes {:02x?}.. (node record 512 was written into the blob's page)", start, back.len(), &back[..back.len().min(8)]); 1 }
+        Ok(Err(e)) => { println!("VIOLATION reproduced: {e}"); 1 }
+        Err(_) => { println!("VIOLATION reproduced: panic"); 1 }
+    }
+}
+
 fn main() {
     let a: Vec<String> = std::env::args().collect();
     let code = match a.get(1).map(|s| s.as_str()) {
@@ -170,6 +201,7 @@ fn main() {
         Some("c17_tail_garbage") => c17_tail("garbage", &[0x01, 0x02]),
         Some("c17_truncate_every_byte") => c17_truncate_every_byte(),
         Some("c17_commit_after_tail") => c17_commit_after_tail(&[0x01, 0x02]),
+        Some("c18_node_table_spill") => c18_node_table_spill(),
         _ => { eprintln!("unknown scenario"); 2 }
     };
     std::process::exit(code);
